@@ -751,6 +751,18 @@ func (r *Repository) MergeMutable(x *Repository) (mutated bool, err error) {
 		}
 	}
 
+	// Metadata is searchable (meta.* queries) and never affects content: merge
+	// it like RawConfig.
+	for k, v := range x.Metadata {
+		if r.Metadata == nil {
+			r.Metadata = make(map[string]string)
+		}
+		if cur, ok := r.Metadata[k]; !ok || cur != v {
+			mutated = true
+			r.Metadata[k] = v
+		}
+	}
+
 	if r.URL != x.URL {
 		mutated = true
 		r.URL = x.URL
